@@ -584,7 +584,8 @@ class PrecipitateModel (PrecipitateBase):
             #Only the growth rate needs to be updated, since all other terms are previous
             #Also revert the PSD in case this function was called to adjust for the new PSD bins
             else:
-                growthRate = self.growth[p]
+                #There are no previous values if this is the first evaluation (during setup)
+                growthRate = self.growth[p] if hasattr(self, 'growth') else np.zeros(self.PBM[p].bins + 1)
                 xEqAlpha = self.pData.xEqAlpha[self.pData.n,p]
                 xEqBeta = self.pData.xEqBeta[self.pData.n,p]
         else:
